@@ -104,20 +104,27 @@ Definition resp_of (W : Z) (r : req) (m : mem) : resp := fst (apply W r m).
 Definition mem_step (W : Z) (r : req) (m : mem) : mem := snd (apply W r m).
 
 (* ------------------------------------------------------------------ sequential specification *)
-Fixpoint mem_after (W : Z) (rs : list req) (m : mem) : mem :=
-  match rs with [] => m | r :: t => mem_after W t (mem_step W r m) end.
-Fixpoint resps (W : Z) (rs : list req) (m : mem) : list resp :=
-  match rs with [] => [] | r :: t => resp_of W r m :: resps W t (mem_step W r m) end.
-Definition run (W : Z) (rs : list req) (m : mem) : list resp * mem := (resps W rs m, mem_after W rs m).
+(* A processed request comes with the data width (in bytes) of the port it arrived on: ports of one memory
+   may carry message types of different data widths, and len = 0 means the width of THAT port. *)
+Definition wreq := (Z * req)%type.
+Fixpoint mem_after (rs : list wreq) (m : mem) : mem :=
+  match rs with [] => m | (W, r) :: t => mem_after t (mem_step W r m) end.
+Fixpoint resps (rs : list wreq) (m : mem) : list resp :=
+  match rs with [] => [] | (W, r) :: t => resp_of W r m :: resps t (mem_step W r m) end.
+Definition run (rs : list wreq) (m : mem) : list resp * mem := (resps rs m, mem_after rs m).
+(* all requests on one width *)
+Definition uniform (W : Z) (rs : list req) : list wreq := map (pair W) rs.
 
 (* logs tagged with the port that was serviced *)
 Definition tlog := list (nat * req).
 Definition untag {A} (l : list (nat * A)) : list A := map snd l.
 Definition on_port {A} (p : nat) (l : list (nat * A)) : list A :=
   map snd (filter (fun x => Nat.eqb (fst x) p) l).
-Fixpoint tresps (W : Z) (l : tlog) (m : mem) : list (nat * resp) :=
-  match l with [] => [] | (p, r) :: t => (p, resp_of W r m) :: tresps W t (mem_step W r m) end.
-Definition tmem_after (W : Z) (l : tlog) (m : mem) : mem := mem_after W (untag l) m.
+(* Wp p = data width in bytes of port p *)
+Definition widths (Wp : nat -> Z) (l : tlog) : list wreq := map (fun x => (Wp (fst x), snd x)) l.
+Fixpoint tresps (Wp : nat -> Z) (l : tlog) (m : mem) : list (nat * resp) :=
+  match l with [] => [] | (p, r) :: t => (p, resp_of (Wp p) r m) :: tresps Wp t (mem_step (Wp p) r m) end.
+Definition tmem_after (Wp : nat -> Z) (l : tlog) (m : mem) : mem := mem_after (widths Wp l) m.
 
 (* which bytes a request stores, and what it stores there (given the memory it is applied to) *)
 Definition stored_value (W : Z) (r : req) (m : mem) : option Z :=
@@ -190,8 +197,8 @@ Fixpoint prefixb {A} (eqb : A -> A -> bool) (l1 l2 : list A) : bool :=   (* l1 i
      img    : (address, byte) pairs of read_mem() at the end
    plus a proposed log (port, request) computed by the (untrusted) harness.  The acceptor checks that
    the log explains everything that was observed. *)
-Definition calls_of_log (W : Z) (l : tlog) : list (nat * call) :=
-  flat_map (fun x => match call_of W (snd x) with Some c => [(fst x, c)] | None => [] end) l.
+Definition calls_of_log (Wp : nat -> Z) (l : tlog) : list (nat * call) :=
+  flat_map (fun x => match call_of (Wp (fst x)) (snd x) with Some c => [(fst x, c)] | None => [] end) l.
 Definition tcall_eqb (a b : nat * call) : bool := Nat.eqb (fst a) (fst b) && call_eqb (snd a) (snd b).
 
 Fixpoint ports_ok {A} (f : nat -> list A -> bool) (p : nat) (ls : list (list A)) : bool :=
@@ -199,12 +206,16 @@ Fixpoint ports_ok {A} (f : nat -> list A -> bool) (p : nat) (ls : list (list A))
 
 Definition log_in_ports (nports : nat) (l : tlog) : bool := forallb (fun x => Nat.ltb (fst x) nports) l.
 
-Definition check_history (W : Z) (init : list (Z * Z)) (reqs : list (list req)) (order : list (nat * call))
+Definition port_width (Ws : list Z) (p : nat) : Z := nth p Ws 0.
+
+Definition check_history (Ws : list Z) (init : list (Z * Z)) (reqs : list (list req)) (order : list (nat * call))
            (out : list (list resp)) (img : list (Z * Z)) (complete : bool) (l : tlog) : bool :=
   let m0 := mem_of_list init mem0 in
+  let W := port_width Ws in          (* Ws = data width in bytes of each port's message type *)
   let sp := tresps W l m0 in
   let mf := tmem_after W l m0 in
   log_in_ports (length reqs) l &&
+  Nat.eqb (length Ws) (length reqs) &&
   Nat.eqb (length out) (length reqs) &&
   (* each port is serviced in request order: the log restricted to a port is a prefix of its stream *)
   ports_ok (fun p rs => (if complete then list_eqb else prefixb) req_eqb (on_port p l) rs) 0 reqs &&
